@@ -1,6 +1,7 @@
 from xdsl.context import Context
 from xdsl.dialects import builtin, linalg
 from xdsl.dialects.arith import AddiOp, ConstantOp, ExtSIOp, MaxSIOp, MinSIOp, MuliOp, ShRSIOp, SubiOp, TruncIOp
+from xdsl.ir import Operation
 from xdsl.passes import ModulePass
 from xdsl.pattern_rewriter import (
     PatternRewriter,
@@ -63,6 +64,12 @@ class LowerLinalgBody(RewritePattern):
 
         # only works for non-fused kernels (only 1 kernel op)
         if not isinstance(kernel_op.next_op, linalg.YieldOp):
+            return
+
+        # the equivalent region takes the kernel operands as its block arguments, so it is only
+        # the same body if the kernel op takes the block arguments of the linalg body in order
+        assert isinstance(kernel_op, Operation)
+        if tuple(kernel_op.operands) != tuple(linalg_op.body.block.args[:-1]):
             return
 
         # replace linalg op
